@@ -6,7 +6,9 @@
 static std::string marker_of(int i) { return "Tk" + std::to_string(i) + "w8Q3z"; }
 
 // ------------------------------------------------------------------ C09
-static const char *C09_LAST[] = {"%{login}", "%{cmdline}", "%{filename}", "%{username}", "%{tty}", "%{env:K1}", "%{datetime:%s}", "%{hostname}", "%{rpname}", "%{cgroup:0}"};
+static const char *C09_LAST[] = {"%{login}", "%{cmdline}", "%{filename}", "%{username}", "%{tty}", "%{env:K1}", "%{datetime:%s}", "%{hostname}", "%{rpname}", "%{cgroup:0}",
+    "%{ipaddr}", "%{domain}", "%{systemd_unit_name}", "%{tty_username}", "%{tty_uid}", "%{eusername}", "%{group}", "%{egroup}", "%{cwd}", "%{env_all}", "%{sid}", "%{timestamp_us}", "%{datetime}", "%{ppid}"};
+#define C09_NLAST 24
 static Plan gen_c09(uint64_t seed, const std::string &tier) {
     Rng r(seed * 1000003 + 109);
     Plan p; p.property = "C09"; p.seed = seed; p.world = gen_world(r);
@@ -17,7 +19,7 @@ static Plan gen_c09(uint64_t seed, const std::string &tier) {
     w.env.push_back("K1=envvalue");
     CfgSpec s; s.has_format = true;
     // the data source coming last is rotated so that the scheduling point right after it is an output call
-    std::string last = C09_LAST[r.below(10)];
+    std::string last = std::string(C09_LAST[r.below(C09_NLAST)]) + " " + C09_LAST[r.below(C09_NLAST)];   // every data source gets its turn under concurrency
     s.format = "%{tid} %{tid_kernel} T%{snoopy_threads}T %{filename} %{cmdline} " + std::string(r.chance(1, 2) ? "%{login} " : "") + last;
     static const char *outs[] = {"file:/log/c09.log", "file:/log/c09-%{tid_kernel}.log", "devlog", "socket:/run/snoopy-0.sock", "stderr", "stdout", "devtty", "devnull"};
     s.has_output = true; s.output = outs[r.below(8)];
